@@ -3,8 +3,10 @@ import ExaModel.Props.C10
 #print axioms Exa.Props.C10.none_after_received_notification
 #print axioms Exa.Props.C10.code_is_class
 #print axioms Exa.Props.C10.code_is_class_run
+#print axioms Exa.Props.C10.api_failure_writes_nothing
+#print axioms Exa.Props.C10.api_alive_of_no_death
 #print axioms Exa.Props.C10.f30_witness
-#print axioms Exa.Props.C10.f18_no_hold_timer_in_openconfirm
+#print axioms Exa.Props.C10.hold_timer_in_openconfirm
 #print axioms Exa.Props.C10.hold_and_cease_codes
 #print axioms Exa.Props.C10.raised_defined
 #print axioms Exa.Props.C10.semCode_defined
